@@ -170,6 +170,22 @@ Theorem C14_source_kind_irrelevant_partial :
 Proof. exact kinds_agree. Qed.
 Print Assumptions C14_source_kind_irrelevant_partial.
 
+(** Chains of transformers nested in chains (parenthesised sub-chains, the transformation of a program followed by
+    the one given at its reference, the transformation of the program of [run]): a tree of chains applies its
+    non-identity atoms in order, and inserting [identity] at any position of any chain of the tree changes
+    nothing - for every source, without any guard. *)
+Theorem C14_nested_chain_is_flat :
+  forall (c : tchain) (x : src),
+    chain_transform c x = fold_left (fun m a => transform_atom a m) (chain_atoms c) x.
+Proof. exact chain_transform_atoms. Qed.
+Print Assumptions C14_nested_chain_is_flat.
+
+Theorem C14_identity_in_chain_irrelevant :
+  forall (l1 l2 : list tchain) (x : src),
+    chain_transform (CSeq (l1 ++ CAtom TId :: l2)) x = chain_transform (CSeq (l1 ++ l2)) x.
+Proof. exact chain_transform_insert_identity. Qed.
+Print Assumptions C14_identity_in_chain_irrelevant.
+
 (** REFUTED without the guard (both replayed on the real program, DESIGN.md Appendix A7 / A8):
     (1) "a\x0cb\n" through a filter: [num-lines == 1] passes, [( num-lines == 1 && num-lines == 1 )] fails;
     (2) CR LF files: [equals -contents-of F2] passes on F1, fails when F1 is wrapped in [identity]. *)
